@@ -6,12 +6,19 @@ the virtual-time asyncio engine.
 
 What is enumerated
     carriers   h1 (GET, HTTP/1.1), h2 (ALPN h2, request without `te`), h2te (request with
-               `te: trailers`), ws/h1 (RFC 6455 upgrade), ws/h2 (RFC 8441 extended CONNECT)
+               `te: trailers`), ws/h1 (RFC 6455 upgrade), ws/h2 (RFC 8441 extended CONNECT);
+               ws/h1o, ws/h2o: the same handshakes OFFERING subprotocols (chat, superchat), sub-alphabet
+               OFFER_ALPHABET; ws/h1p, ws/h2p: websocket_ping_interval and a small
+               websocket_max_message_size configured, sub-alphabet PING_ALPHABET, which adds two
+               ENVIRONMENT operations: "tick" (the clock jumps to the next timer: the keep-alive ping
+               task) and "c_big" (once, over an open WebSocket: the client sends a message above the
+               limit, the server closes with 1009 on its own, the client stays silent)
     operations every sequence, up to the depth bound, over the ASGI send alphabet below (HTTP_OPS /
                WS_OPS): valid and invalid http.response.start / body / trailers / push /
                early_hint, websocket.accept / send / close / http.response.start / body, unknown
                types, header names/values that are not bytes, pseudo-headers, CR / LF / NUL in
-               values, blank / CRLF in names, non-str push path and text frame.
+               values, blank / CRLF in names, non-str push path and text frame, websocket.accept
+               selecting a subprotocol (offered / not offered / with CR LF inside).
     One top-level scenario = (carrier, first operation); the search below it is exhaustive to
     the depth bound.  Every operation is applied at quiescence: the scripted application is
     [recv, gate g0, send m0, gate g1, send m1, ...]; the environment releases gate i, lets the
@@ -29,7 +36,10 @@ Oracle clauses (reference automaton: mc/x_c12_ref.py, written from the ASGI spec
     wire-invalid          what was written is not a valid protocol prefix: the independent client
                           parser (h11 / strict h2 / wsproto) fails, a second final response head,
                           DATA / END_STREAM without a response head, trailers nobody sent,
-                          a header field the application did not supply (h1 injection)
+                          a header field the application did not supply (h1 injection), a WebSocket
+                          frame after the server's own Close frame (raw frame walk: the wsproto
+                          client drops what follows a Close), a sec-websocket-protocol in the
+                          handshake response that the client did not offer
     ctl-on-wire           CR, LF or NUL inside a header name/value the client decodes (h1: parsed
                           and raw head bytes; h2: decoded header blocks, inbound validation off)
     Wire clauses are evaluated after every operation and reported for the operation that
@@ -52,7 +62,9 @@ Why equal canon implies equal futures
     (HPACK tables, h2 windows, h11 framing state); the client's bytes are the same fixed request in
     every history of a carrier and it never speaks again; (b) the application program, which is
     parked at its next gate in every state; (c) the environment: no timer ever fires (the clock
-    stays at 0), no fault is injected; (d) the monitor: reference state and client parsers, the
+    stays at 0), no fault is injected - on the "p" carriers the clock only moves by "tick", virtual
+    time and the next pending deadline are part of canon, and whether the client has spoken
+    ("c_big" in the history) is too; (d) the monitor: reference state and client parsers, the
     latter being deterministic functions of the byte string written.  Two histories with equal
     canon therefore agree on all of (a)-(d); extending both with the same operations gives the
     same executions and verdicts.  States in which the implementation already disagreed with the
@@ -67,7 +79,8 @@ import os
 import re
 from typing import Any, Dict, List, Optional, Tuple
 
-from mc.clients import Client, H2Client, h1_request, h2_request_headers, ws_h1_handshake, ws_h2_headers
+from mc.clients import (OP_TEXT, Client, H2Client, h1_request, h2_request_headers, ws_frame, ws_h1_handshake,
+                        ws_h2_headers)
 from mc.core import ScriptApp
 from mc.explore import V, bfs
 from mc.harness import describe, norm_headers, run_world
@@ -78,21 +91,29 @@ LEVEL = "model_checking"
 TECHNIQUE = ("explicit-state breadth-first search over ASGI send-message histories with canonical-state "
              "de-duplication; every history is executed on the real hypercorn protocol stack under a virtual-time "
              "loop and an in-memory transport; oracle = reference ASGI send automaton + independent client parsers")
-RULE = ("scenario = carrier(h1,h2,h2te,ws/h1,ws/h2) x first operation; below it every operation sequence up to the "
+RULE = ("scenario = carrier(h1,h2,h2te,ws/h1,ws/h2, ws/h1o,ws/h2o: client offers subprotocols, ws/h1p,ws/h2p: keep-alive "
+        "pings configured + environment operations clock tick / over-sized client message) x first operation; below it "
+        "every operation sequence up to the "
         "depth bound, each operation applied at quiescence; states = distinct canonical states (reference state, "
         "hypercorn ASGI/h11/h2/wsproto state, bytes written, client parser view); non-trivial = every state (an "
         "application instance ran and at least one send was made); distinct outcomes = distinct canonical states")
 ASSUMPTIONS = [
     "asyncio worker only (the message handling under test is worker independent)",
-    "the client sends one complete request and nothing afterwards; no timers fire, no faults (C03 owns closed connections)",
+    "the client sends one complete request and nothing afterwards; no timers fire, no faults (C03 owns closed connections); "
+    "ws/h?p carriers only: timers fire through the explicit operation 'tick', the client sends at most one over-sized "
+    "message over an open WebSocket (after which only state-independent rejections and the wire clauses are demanded)",
+    "websocket.accept naming a subprotocol the client did not advertise (scope['subprotocols']) is judged invalid: the "
+    "server may only select an offered subprotocol (RFC 6455 4.2.2), any other value can only yield a handshake the "
+    "client must fail",
     "messages whose validity the ASGI text leaves open (CR/LF/NUL or blank in header bytes, body contradicting the "
     "declared content-length, trailers/push before the response start, close/accept between "
     "websocket.http.response.start and its body) are not judged for raising, only for what reaches the wire",
     "states in which raising already disagreed with the reference are reported and not expanded",
     "client-side length errors are not counted once the application contradicted its own content-length",
 ]
-BOUNDS_DOC = {"quick": "history depth 6 (h1) / 4 (h2, h2te) / 5 (ws/h1, ws/h2), full alphabet",
-              "thorough": "history depth 8 (h1) / 6 (h2, h2te) / 7 (ws/h1, ws/h2), full alphabet"}
+BOUNDS_DOC = {"quick": "history depth 6 (h1) / 4 (h2, h2te) / 5 (ws/h1, ws/h2), full alphabet; depth 5 on ws/h?o (6 operations) "
+                       "and ws/h?p (3 messages + tick + c_big)",
+              "thorough": "history depth 8 (h1) / 6 (h2, h2te) / 7 (ws/h1, ws/h2), full alphabet; depth 7 on ws/h?o, ws/h?p"}
 BUDGET = {"quick": 300, "thorough": 1200}
 
 # ---------------------------------------------------------------------------------------------
@@ -154,11 +175,28 @@ WS_OPS: Dict[str, dict] = {
     "hbody_end": {"type": "websocket.http.response.body", "body": b"", "more_body": False},
     "unknown": {"type": "websocket.bogus"},
     "http_start": _start(200, []),  # a message of the other protocol
+    # the accepted subprotocol is an application-supplied header VALUE (sec-websocket-protocol) that does not travel
+    # in "headers": offered by the client ("o" carriers) / not offered / with CR LF inside
+    "accept_sub": {"type": "websocket.accept", "subprotocol": "chat"},
+    "accept_sub_other": {"type": "websocket.accept", "subprotocol": "mqtt"},
+    "accept_sub_ctl": {"type": "websocket.accept", "subprotocol": "chat\r\nset-cookie: a=b"},
 }
+# Environment operations (WebSocket "p" carriers: websocket_ping_interval and a small websocket_max_message_size
+# configured): the clock jumps to the next timer (the keep-alive ping task) / the client sends one message larger than
+# websocket_max_message_size (the server closes with 1009 on its own) and stays silent afterwards.
+ENV_OPS = ("tick", "c_big")
+OFFERED = ("chat", "superchat")
+PING_INTERVAL = 2.0
+MAX_MESSAGE = 8
+BIG_MESSAGE = b"0123456789abcdef"
+# sub-alphabets of the variant carriers (the base carriers ws/h1, ws/h2 run the full alphabet)
+OFFER_ALPHABET = ["accept", "accept_sub", "accept_sub_other", "accept_sub_ctl", "send_text", "close"]
+PING_ALPHABET = ["accept", "send_text", "close", "tick", "c_big"]
 
-CARRIERS = ["h1", "h2", "h2te", "ws/h1", "ws/h2"]
-DEPTH = {"quick": {"h1": 6, "h2": 4, "h2te": 4, "ws/h1": 5, "ws/h2": 5},
-         "thorough": {"h1": 8, "h2": 6, "h2te": 6, "ws/h1": 7, "ws/h2": 7}}
+# ws/h?o: the client offers subprotocols OFFERED; ws/h?p: keep-alive pings + environment operations
+CARRIERS = ["h1", "h2", "h2te", "ws/h1", "ws/h2", "ws/h1o", "ws/h2o", "ws/h1p", "ws/h2p"]
+DEPTH = {"quick": {"h1": 6, "h2": 4, "h2te": 4, "ws/h1": 5, "ws/h2": 5, "ws/h1o": 5, "ws/h2o": 5, "ws/h1p": 5, "ws/h2p": 5},
+         "thorough": {"h1": 8, "h2": 6, "h2te": 6, "ws/h1": 7, "ws/h2": 7, "ws/h1o": 7, "ws/h2o": 7, "ws/h1p": 7, "ws/h2p": 7}}
 
 SERVER_HEADERS = {b"date", b"server", b"connection", b"transfer-encoding", b"alt-svc", b"upgrade",
                   b"sec-websocket-accept", b"sec-websocket-extensions", b"sec-websocket-protocol"}
@@ -172,8 +210,26 @@ def ops_of(carrier: str) -> Dict[str, dict]:
     return WS_OPS if is_ws(carrier) else HTTP_OPS
 
 
+def base_of(carrier: str) -> str:
+    return carrier[:5] if is_ws(carrier) else carrier
+
+
+def offered_of(carrier: str) -> tuple:
+    return OFFERED if carrier.endswith("o") else ()
+
+
+def alphabet(carrier: str) -> List[str]:
+    """Operation names of a carrier: application messages (keys of ops_of) and environment operations."""
+    if carrier.endswith("o"):
+        return list(OFFER_ALPHABET)
+    if carrier.endswith("p"):
+        return list(PING_ALPHABET)
+    return list(ops_of(carrier))
+
+
 def scenarios(tier: str) -> List[Any]:
-    return [(c, op) for c in CARRIERS for op in ops_of(c)]
+    # environment operations are not enabled in the initial state (no timer, WebSocket not open)
+    return [(c, op) for c in CARRIERS for op in alphabet(c) if op not in ENV_OPS]
 
 
 def bounds(tier: str, params: Any) -> dict:
@@ -221,9 +277,11 @@ class _DualClient(Client):
 def _build(carrier: str, history: List[str], snaps: list) -> dict:
     ops = ops_of(carrier)
     program: List[tuple] = [("recv",)]
-    for i, name in enumerate(history):
+    for i, name in enumerate(n for n in history if n not in ENV_OPS):
         program += [("gate", f"g{i}"), ("send", ops[name])]
     program.append(("gate", "never"))
+    full, carrier = carrier, base_of(carrier)
+    offer = [(b"sec-websocket-protocol", ", ".join(offered_of(full)).encode())] if offered_of(full) else []
     conn: Dict[str, Any] = {"carrier": "h2" if carrier == "h2te" else carrier}
     if carrier == "h1":
         client = [("data", 0, h1_request(b"GET", b"/x"))]
@@ -233,14 +291,28 @@ def _build(carrier: str, history: List[str], snaps: list) -> dict:
         extra = [(b"te", b"trailers")] if carrier == "h2te" else []
         client = [("cmd", 0, "preface"), ("cmd", 0, "headers", 1, h2_request_headers(b"GET", b"/x", extra=extra), True)]
     elif carrier == "ws/h1":
-        client = [("data", 0, ws_h1_handshake(b"/x"))]
+        client = [("data", 0, ws_h1_handshake(b"/x", extra=offer))]
+        big = ("data", 0, ws_frame(OP_TEXT, BIG_MESSAGE))
     else:
         conn.update(tls=True, alpn="h2", validate_inbound=False)
-        client = [("cmd", 0, "preface"), ("cmd", 0, "ws_open", 1), ("cmd", 0, "headers", 1, ws_h2_headers(b"/x"), False)]
+        client = [("cmd", 0, "preface"), ("cmd", 0, "ws_open", 1),
+                  ("cmd", 0, "headers", 1, ws_h2_headers(b"/x", extra=offer), False)]
+        big = ("cmd", 0, "ws_data", 1, ws_frame(OP_TEXT, BIG_MESSAGE))
     apps = {"http:/x": program, "websocket:/x": program, "http:/p": [("gate", "never")]}
     script: List[tuple] = list(client) + [("call", lambda w: snaps.append(_snapshot(w, carrier)))]
-    for i in range(len(history)):
-        script += [("release", f"g{i}"), ("call", lambda w: snaps.append(_snapshot(w, carrier)))]
+    j = 0
+    for name in history:
+        if name == "tick":
+            script.append(("tick",))
+        elif name == "c_big":
+            script.append(big)
+        else:
+            script.append(("release", f"g{j}"))
+            j += 1
+        script.append(("call", lambda w: snaps.append(_snapshot(w, carrier))))
+    config: Dict[str, Any] = {"keep_alive_timeout": 5}
+    if full.endswith("p"):
+        config.update(websocket_ping_interval=PING_INTERVAL, websocket_max_message_size=MAX_MESSAGE)
 
     def app_factory(world: Any) -> Any:
         from hypercorn.app_wrappers import ASGIWrapper
@@ -250,7 +322,7 @@ def _build(carrier: str, history: List[str], snaps: list) -> dict:
 
     return {
         "level": "conn", "conns": {0: conn}, "client_factory": lambda w, k, opts: _DualClient(opts),
-        "app_factory": app_factory, "config": {"keep_alive_timeout": 5}, "sources": [("script", script)],
+        "app_factory": app_factory, "config": config, "sources": [("script", script)],
         "midflight": False, "sigs": False,
     }
 
@@ -332,6 +404,37 @@ def _scan_headers(where: str, headers: Any, out: List[tuple]) -> None:
                 out.append(("ctl-on-wire", f"{where}:{part}:{c}", f"{bytes(n)!r}: {bytes(v)!r}"))
 
 
+def _ws_opcodes(data: bytes) -> List[int]:
+    """Opcodes of the complete server-to-client (unmasked) WebSocket frames in `data`."""
+    out: List[int] = []
+    i = 0
+    while len(data) - i >= 2:
+        n = data[i + 1] & 0x7F
+        hdr = 2 + (4 if data[i + 1] & 0x80 else 0)
+        if n == 126:
+            if len(data) - i < 4:
+                break
+            n = int.from_bytes(data[i + 2:i + 4], "big")
+            hdr += 2
+        elif n == 127:
+            if len(data) - i < 10:
+                break
+            n = int.from_bytes(data[i + 2:i + 10], "big")
+            hdr += 8
+        if len(data) - i < hdr + n:
+            break
+        out.append(data[i] & 0x0F)
+        i += hdr + n
+    return out
+
+
+def _after_close(where: str, data: bytes, out: List[tuple]) -> None:
+    # RFC 6455 5.5.1: no frame follows one's own Close frame (the wsproto client silently drops what follows)
+    ops = _ws_opcodes(data)
+    if 8 in ops and ops.index(8) != len(ops) - 1:
+        out.append(("wire-invalid", f"{where}frame-after-close", f"frame opcodes {ops}"))
+
+
 def _wire_problems(rec: Any, carrier: str) -> List[tuple]:
     """(clause, cause, detail) for everything that is wrong with the bytes written so far.  Uses
     only the client side: raw bytes and the independent parsers."""
@@ -358,6 +461,8 @@ def _wire_problems(rec: Any, carrier: str) -> List[tuple]:
             out.append(("ctl-on-wire", "h1-raw-head:NUL", head[:80]))
         if cl.ws is not None and cl.ws.error is not None:
             out.append(("wire-invalid", "ws-client:" + _short(cl.ws.error), cl.ws.error))
+        if cl.ws is not None and p.switched:
+            _after_close("ws-", bytes(p.after_switch), out)
     else:
         for tag, h2c in (("h2-client", cl.h2), ("h2-strict-client", cl.strict)):
             if h2c.error is not None:
@@ -377,6 +482,9 @@ def _wire_problems(rec: Any, carrier: str) -> List[tuple]:
         for sid, wsp in sorted(cl.h2.ws.items()):
             if wsp.error is not None:
                 out.append(("wire-invalid", "ws-client:" + _short(wsp.error), wsp.error))
+            st = cl.h2.streams.get(sid)
+            if st is not None and st["status"] == 200:
+                _after_close("ws-", st["body"], out)
     return out
 
 
@@ -411,6 +519,9 @@ def _snapshot(w: Any, carrier: str) -> dict:
         "instances": tuple((i.scope["type"], i.scope.get("path"), i.outcome, i.parked_gate) for i in w.instances),
         "now": w.now(),
         "closed": (rec.closed_at, rec.server_eof_at, rec.handler),
+        # what the environment could do next (also part of the canonical state: the pending timer)
+        "deadline": w.loop.next_deadline(),
+        "data_ok": w.enabled(("data", 0, b"")),
     }
 
 
@@ -420,7 +531,7 @@ def _snapshot(w: Any, carrier: str) -> dict:
 
 def _new_model(carrier: str) -> Any:
     if is_ws(carrier):
-        return WsRef()
+        return WsRef(offered_of(carrier))
     return HttpRef("1.1" if carrier == "h1" else "2", te_trailers=carrier == "h2te")
 
 
@@ -440,15 +551,24 @@ def _judge(carrier: str, history: List[str], snaps: List[dict], w: Any) -> Tuple
     if len(snaps) != n + 1:
         # some send never came back (or the request never reached the application)
         last = history[len(snaps) - 1] if 0 < len(snaps) <= n else "-"
+        if 0 < len(snaps) <= n and history[len(snaps) - 1] in ENV_OPS:
+            return model, viol, False  # an environment operation that was not enabled (not generated by run_history)
         if len(snaps) == n:  # the last operation is the one that hangs: report it here
             viol.append(V("send-never-returned", f"{carrier}:{last}", f"history={history}"))
         return model, viol, False
     supplied: set = set()  # header fields the application supplied in messages the server took
+    j = -1  # index of the application's send
     for i, name in enumerate(history):
-        msg = ops[name]
         before, after = snaps[i], snaps[i + 1]
         is_last = i == n - 1
-        outcome = after["sends"][i] if i < len(after["sends"]) else "missing"
+        if name in ENV_OPS:
+            model.env(name)
+            if is_last:
+                _wire_verdict(carrier, name, before, after, w, model, history, supplied, viol)
+            continue
+        msg = ops[name]
+        j += 1
+        outcome = after["sends"][j] if j < len(after["sends"]) else "missing"
         if outcome in ("pending", "missing", "cancelled"):
             if is_last:
                 viol.append(V("send-never-returned", f"{carrier}:{name}:{outcome}", f"history={history}"))
@@ -487,16 +607,22 @@ def _judge(carrier: str, history: List[str], snaps: List[dict], w: Any) -> Tuple
                 except Exception:
                     pass
         if is_last:
-            old = {(c, k) for c, k, _ in before["wire"]}
-            # a client-side body-length error needs a content-length, which only the application supplies
-            exempt = any(n == b"content-length" for n, _ in supplied)
-            for clause, cause, detail in after["wire"] + _semantic_wire(carrier, w, model, history, supplied):
-                if (clause, cause) in old:
-                    continue
-                if exempt and ("Length" in cause or "length" in cause or "InvalidBodyLength" in str(detail)):
-                    continue
-                viol.append(V(clause, f"{carrier}:{cause}:after-{name}", f"history={history} {detail}"))
+            _wire_verdict(carrier, name, before, after, w, model, history, supplied, viol)
     return model, viol, expand
+
+
+def _wire_verdict(carrier: str, name: str, before: dict, after: dict, w: Any, model: Any, history: List[str],
+                  supplied: set, viol: List[dict]) -> None:
+    """Wire clauses introduced by the last operation `name` of the history."""
+    old = {(c, k) for c, k, _ in before["wire"]}
+    # a client-side body-length error needs a content-length, which only the application supplies
+    exempt = any(n == b"content-length" for n, _ in supplied)
+    for clause, cause, detail in after["wire"] + _semantic_wire(carrier, w, model, history, supplied):
+        if (clause, cause) in old:
+            continue
+        if exempt and ("Length" in cause or "length" in cause or "InvalidBodyLength" in str(detail)):
+            continue
+        viol.append(V(clause, f"{carrier}:{cause}:after-{name}", f"history={history} {detail}"))
 
 
 def _semantic_wire(carrier: str, w: Any, model: Any, history: List[str], supplied: set) -> List[tuple]:
@@ -514,11 +640,20 @@ def _semantic_wire(carrier: str, w: Any, model: Any, history: List[str], supplie
                 if n == b"content-length" and r["status"] in (400, 403, 404, 500):
                     continue
                 out.append(("wire-invalid", "header-not-supplied:" + _short(n.decode("latin1")), f"{n!r}: {bytes(v)!r}"))
+        heads = [r["headers"] for r in cl.h1.responses if r["status"] == 101]
     else:
-        took_trailers = any(ops_of(carrier)[h]["type"] == "http.response.trailers" for h in history)
+        took_trailers = any(h not in ENV_OPS and ops_of(carrier)[h]["type"] == "http.response.trailers" for h in history)
+        heads = [st["headers"] or [] for sid, st in sorted(cl.h2.streams.items()) if sid in cl.h2.ws and st["status"] == 200]
         for sid, st in sorted(cl.h2.streams.items()):
             if st["trailers"] is not None and not took_trailers:
                 out.append(("wire-invalid", "trailers-nobody-sent", f"stream {sid}: {st['trailers']}"))
+    if is_ws(carrier):
+        # RFC 6455 4.2.2 / 4.1: the handshake response selects one of the subprotocols the client offered or none
+        offered = {o.encode() for o in offered_of(carrier)}
+        for hd in heads:
+            for n, v in hd:
+                if bytes(n).lower() == b"sec-websocket-protocol" and bytes(v).strip() not in offered:
+                    out.append(("wire-invalid", "subprotocol-not-offered", f"{bytes(n)!r}: {bytes(v)!r}"))
     return out
 
 
@@ -546,8 +681,14 @@ def run_history(carrier: str, history: List[str]) -> Tuple[str, List[dict], List
     viol += v2
     last = snaps[-1] if snaps else {}
     canon = _sha((carrier, model.key(), model.state, last.get("hyp"), last.get("out_sha"), last.get("client"),
-                  last.get("instances"), last.get("now"), last.get("closed"), len(snaps) == len(history) + 1, expand))
-    enabled = list(ops_of(carrier)) if expand and len(snaps) == len(history) + 1 else []
+                  last.get("instances"), last.get("now"), last.get("closed"), len(snaps) == len(history) + 1, expand,
+                  last.get("deadline"), last.get("data_ok"), "c_big" in history))
+    enabled = alphabet(carrier) if expand and len(snaps) == len(history) + 1 else []
+    if "tick" in enabled and last.get("deadline") is None:
+        enabled.remove("tick")
+    # the client speaks once, over an open WebSocket (frames before the handshake completes belong to C13)
+    if "c_big" in enabled and ("c_big" in history or model.state != "connected" or not last.get("data_ok")):
+        enabled.remove("c_big")
     return canon, viol, enabled, (w, snaps, model)
 
 
@@ -606,7 +747,7 @@ def replay_history(params: Any, history: List[str]) -> Tuple[List[dict], Any]:
     inst = w.instances[0] if w.instances else None
     obs = {
         "carrier": carrier, "history": list(history),
-        "messages": [_brief(ops_of(carrier)[h]) for h in history],
+        "messages": [h if h in ENV_OPS else _brief(ops_of(carrier)[h]) for h in history],
         "send_outcomes": [] if inst is None else [s[3] for s in inst.sends],
         "out_len_per_step": [s["out_len"] for s in snaps],
         "reference_state": repr(model.key()),
